@@ -1,5 +1,6 @@
 """Per-property metadata shared by check.py and gen_manifest.py."""
 import os
+import sys
 import subprocess
 
 VERIF = os.path.dirname(os.path.abspath(__file__))
@@ -23,6 +24,19 @@ def gen_lazy_deps():
     os.makedirs(os.path.dirname(out), exist_ok=True)
     p = subprocess.run([binp, "c16-gen", "--out", out], stdout=subprocess.PIPE, stderr=subprocess.STDOUT, text=True)
     return p.returncode, p.stdout
+
+
+def gen_src_envelope():
+    """C08 / C09: regenerate lean/RSVerif/Gen/SrcEnvelope.lean from the current text of /repo/src/rate*.rs"""
+    out = os.path.join(VERIF, "lean", "RSVerif", "Gen", "SrcEnvelope.lean")
+    p = subprocess.run([sys.executable, os.path.join(VERIF, "translate", "rs2lean.py"), "/repo", out],
+                       stdout=subprocess.PIPE, stderr=subprocess.STDOUT, text=True)
+    return p.returncode, p.stdout
+
+
+TECH_TR = ("Lean 4 machine-checked proof; the usize decision logic (supports / use_high_rate / validate / work_count) is TRANSLATED from "
+           "the current Rust source on every run (translate/rs2lean.py -> Gen/SrcEnvelope.lean) and the theorems are re-checked on the "
+           "translation; the rest on a hand-written model + differential correspondence with the crate")
 
 
 def P(category, explanation, rule, assumptions=None, profiles=None, design_ref=None, **kw):
@@ -110,16 +124,22 @@ PROPS = {
         "Theorems for all k r in N: supports <-> README envelope for default/high/low; default = high or low; rule's rate is supported by the dedicated "
         "codec; validate/new/reset succeed iff supports && size even non-zero; reset never leaves None; row form supports <-> 1<=r<=cap k; index "
         "safety (work space <= 65536, skew indexes <= 65534). Direct oracle: supports of every flavour vs envelope and vs the model's staircase "
-        "(thorough: all 65538^2 pairs x 4; quick: boundary band + 8e6 pairs), constructors on the boundary, round trips at all staircase corners.",
+        "(thorough: all 65538^2 pairs x 4; quick: boundary band + 8e6 pairs), constructors on the boundary, round trips at all staircase corners. "
+        "Source level: HighRate/LowRate/DefaultRate::supports, use_high_rate, Rate::validate and the four work_count functions are translated from "
+        "today's source into checked-usize Lean functions; theorems: translation = model for ALL arguments and no usize overflow "
+        "(source_supports_is_envelope, source_validate, source_work_counts); the translation is also run (srcmodel) against the implementation.",
         "cases = (k, r) pairs x flavours for supports; protocol lines for constructors; corner round trips",
+        pre_lean=gen_src_envelope, extra_targets=["srcmodel"], technique=TECH_TR,
         design_ref="DESIGN.md §6 C08",
     ),
     "C09": P(
         "proof",
         "Theorems: the rule as stated (depends on k, r only); default-flavour new/reset produce exactly the dedicated codec of the rule's rate on the "
         "same working memory; later calls ignore the flavour. Direct oracle: default vs dedicated vs ReedSolomonEncoder vs one-shot bytes on the whole "
-        "boundary of the rule, with rate-crossing resets; default decoder decodes dedicated-encoded shards.",
+        "boundary of the rule, with rate-crossing resets; default decoder decodes dedicated-encoded shards. Source level: use_high_rate as translated "
+        "from today's source obeys the rule for all arguments (source_rate_rule).",
         "cases = configurations on the rule's boundary and random ones, with and without rate-crossing reset histories",
+        pre_lean=gen_src_envelope, technique=TECH_TR,
         design_ref="DESIGN.md §6 C09",
     ),
     "C10": P(
